@@ -612,3 +612,153 @@ Proof.
   exists st0, outs0. split; [exact E|]. vm_compute in E. injection E as <- <-.
   eexists _, _, _. split; [vm_compute; reflexivity|]. repeat split; vm_compute; reflexivity.
 Qed.
+
+
+(* ========================================================================================== *)
+(* Cross-model links (appended; owner: the links, docs/Link.md section L2)                      *)
+(* ========================================================================================== *)
+(* The iteration of this file takes "the timerfd has an unread expiration" (k_texp) as an input
+   of the environment and models TimerQueue::handleRead only by its effect on that counter.
+   Link_LoopTimer joins it with C06's TimerQueue model (T = C06_Model: armed instant of the
+   one-shot timerfd, clock, timers_, handleRead = T.fire) by the kernel's timerfd contract AS A
+   DEFINITION: the timerfd is readable iff it is armed for an instant that has passed ([due]);
+   [env_of w rd tq] is the kenv the poll sees when the wake-up counter is w, the other
+   descriptors are in condition rd and the timer queue is in state tq.  TH = C06_Hist. *)
+From Muduo Require Import Link_LoopQueue Link_LoopTimer Link_Properties_L2.
+
+Theorem C09_link_timer_defs : forall w rd tq tc log,
+  (due tq <-> exists x, T.armed tq = Some x /\ (x <= T.clk tq)%Z) /\
+  (tq_reach tq <-> exists c ops evs, T.run (T.init c) ops = T.Ok (tq, evs)) /\
+  floor_val = Gen_C06.TimerQueue_floor_val /\
+  (timer_fired tc log = true <-> In (tc, CbRead) log) /\
+  k_wake (env_of w rd tq) = w /\ k_rd (env_of w rd tq) = rd /\
+  ((0 < k_texp (env_of w rd tq))%N <-> due tq).
+Proof.
+  exact (fun w rd tq tc log =>
+    match L2_timer_defs tq tc log with
+    | conj a (conj b (conj c d)) =>
+        conj a (conj b (conj c (conj d (conj eq_refl (conj eq_refl (env_of_texp w rd tq))))))
+    end).
+Qed.
+Print Assumptions C09_link_timer_defs.
+
+(* THE LAST SENTENCE OF THIS PROPERTY AND OF C06, AS ONE STATEMENT (= C09_idle_blocks_iff +
+   C06_armed_for_earliest).  In any combined state - poller reached by any history with the loop's
+   two channels registered, wake-up counter w, functor queue p under the queue invariant
+   (pend_inv), timer queue tq reached by any C06 history (adds, cancels, expiries, functors,
+   foreign micro-steps, clock ticks): the kernel has nothing to return IFF the wake-up counter is
+   0, no armed instant of the timerfd has passed and no other registered channel with interest is
+   ready; then no functor is queued, and a registered timer means the timerfd is armed for a later
+   instant, no later than max(earliest deadline, last arming + floor): the block ends by then; a
+   registered timer whose deadline has passed (the floor since the last arming too) keeps the
+   poll from blocking. *)
+Theorem C09_next_poll_blocks_iff_combined : forall st sp wc tc wfd tfd w rd (p : list nat) tq,
+  reachEC st sp -> loop_channels sp wc tc wfd tfd -> (p <> [] -> (0 < w)%N) -> tq_reach tq ->
+  let e := env_of w rd tq in
+  (ep_full st (env_ready wfd tfd e) = [] <-> (w = 0%N /\ ~ due tq /\ others_quiet sp wc tc e)) /\
+  (ep_full st (env_ready wfd tfd e) = [] ->
+     p = [] /\
+     forall d a r, T.timers tq = (d, a) :: r ->
+       exists x, T.armed tq = Some x /\ (T.clk tq < x <= Z.max d (T.arm_at tq + floor_val))%Z) /\
+  (forall d a, In (d, a) (T.timers tq) -> (d <= T.clk tq)%Z -> (T.arm_at tq + floor_val <= T.clk tq)%Z ->
+     ep_full st (env_ready wfd tfd e) <> []).
+Proof. exact L2_next_poll_blocks_iff. Qed.
+Print Assumptions C09_next_poll_blocks_iff_combined.
+
+Theorem C09_next_poll_blocks_iff_combined_poll : forall st sp wc tc wfd tfd w rd (p : list nat) tq choice,
+  reachPC st sp -> loop_channels sp wc tc wfd tfd -> (p <> [] -> (0 < w)%N) -> tq_reach tq ->
+  let e := env_of w rd tq in
+  let blocks := pp_step_current st (Poll (env_ready wfd tfd e) choice) = Ok (st, []) in
+  (blocks <-> (w = 0%N /\ ~ due tq /\ others_quiet sp wc tc e)) /\
+  (blocks ->
+     p = [] /\
+     forall d a r, T.timers tq = (d, a) :: r ->
+       exists x, T.armed tq = Some x /\ (T.clk tq < x <= Z.max d (T.arm_at tq + floor_val))%Z) /\
+  (forall d a, In (d, a) (T.timers tq) -> (d <= T.clk tq)%Z -> (T.arm_at tq + floor_val <= T.clk tq)%Z ->
+     ~ blocks).
+Proof. exact L2_next_poll_blocks_iff_poll. Qed.
+Print Assumptions C09_next_poll_blocks_iff_combined_poll.
+
+(* a poll that has something to return returns at least one channel (epoll_wait returns
+   min(ready, capacity) >= 1 entries): an iteration that does not block dispatches something *)
+Theorem C09_unblocked_poll_returns_a_channel : forall st sp ready choice,
+  reachEC st sp -> ep_full st ready <> [] ->
+  exists st' act, ep_step_current st (Poll ready choice) = Ok (st', act) /\ act <> [].
+Proof. exact L2_unblocked_poll_returns_a_channel. Qed.
+Print Assumptions C09_unblocked_poll_returns_a_channel.
+
+(* the combined iteration: this file's whole iteration (epoll back-end of the current tree) in
+   the environment the components determine; if the timer channel's read callback ran it was
+   TimerQueue::handleRead (TimerQueue.cc:102-103 binds it), i.e. C06's fire on the timer queue *)
+Theorem C09_link_combined_iter_def : forall h hq fb runs user qw wc tc wfd tfd st w rd p tq choice script,
+  combined_iter h hq fb runs user qw wc tc wfd tfd st w rd p tq choice script =
+  match loop_iter_full_env ep ep_step_current h hq fb runs (effects_current wc tc user) qw wfd tfd
+          st (env_of w rd tq) p choice with
+  | Ok (st', e', p', (act, log, ran)) =>
+      if timer_fired tc log then
+        match T.fire tq script with
+        | T.Ok (tq', ev) => Some (st', e', p', tq', (act, log, ran, ev))
+        | _ => None
+        end
+      else Some (st', e', p', tq, (act, log, ran, []))
+  | _ => None
+  end.
+Proof. exact L2b_combined_iter_def. Qed.
+Print Assumptions C09_link_combined_iter_def.
+
+(* PROGRESS.  Only the loop's own channels can be ready and the poll does not block (w > 0 or the
+   timerfd is due): the iteration succeeds; a callback runs (EventLoop::handleRead iff w > 0,
+   TimerQueue::handleRead iff the timerfd is due); every functor queued at poll time - and what
+   the callbacks queued - runs in this iteration, in order; the wake-up counter is consumed and
+   afterwards counts only wake-ups for functors queued during this iteration (a stale wake-up is
+   not repeated); a due timerfd makes handleRead run the earliest timer, or - the arming was stale
+   - re-arm for exactly max(earliest, now + floor) (C06_progress); a timerfd that is not due
+   leaves the timer queue untouched. *)
+Theorem C09_unblocked_iteration_progress :
+  forall h hq fb runs user qw wc tc wfd tfd st sp w rd p tq choice script,
+  reachEC st sp -> loop_channels sp wc tc wfd tfd ->
+  others_quiet sp wc tc (env_of w rd tq) ->
+  runs wc = true -> runs tc = true -> (forall k, h wc k = []) -> (forall k, h tc k = []) ->
+  tq_reach tq ->
+  (forall log, (forall ck, In ck log -> ck = (wc, CbRead) \/ ck = (tc, CbRead)) ->
+     functors_ok fb sp (p ++ flat_map (fun ck => hq (fst ck) (snd ck)) log)) ->
+  (0 < w)%N \/ due tq ->
+  exists st' e' p' tq' act log ran ev,
+    combined_iter h hq fb runs user qw wc tc wfd tfd st w rd p tq choice script
+      = Some (st', e', p', tq', (act, log, ran, ev)) /\
+    reachEC st' (spec_run sp (functors_ops fb ran)) /\
+    log <> [] /\
+    (In (wc, CbRead) log <-> (0 < w)%N) /\ (In (tc, CbRead) log <-> due tq) /\
+    ran = p ++ flat_map (fun ck => hq (fst ck) (snd ck)) log /\
+    p' = functors_queued fb ran /\
+    k_wake e' = ((if qw true false true
+                  then N.of_nat (length (flat_map (fun ck => hq (fst ck) (snd ck)) log)) else 0)
+                 + (if qw true true true then N.of_nat (length p') else 0))%N /\
+    (due tq ->
+       T.fire tq script = T.Ok (tq', ev) /\
+       forall d a r x, T.timers tq = (d, a) :: r -> T.armed tq = Some x ->
+         ((d <= T.clk tq)%Z /\
+            exists o t, T.hget a (T.heap tq) = Some o /\ In (T.ERun (T.o_seq o) d (T.clk tq) t) ev) \/
+         ((T.clk tq < d)%Z /\ (x < d)%Z /\ TH.rlog ev = [] /\ T.timers tq' = T.timers tq /\
+            T.clk tq' = T.clk tq /\ T.armed tq' = Some (Z.max d (T.clk tq + floor_val)))) /\
+    (~ due tq -> tq' = tq /\ ev = []).
+Proof. exact L2_unblocked_iteration_progress. Qed.
+Print Assumptions C09_unblocked_iteration_progress.
+
+(* the queue view of any successful iteration of this file (any back-end): the batch is the queue
+   at poll time followed by what the callbacks queued; the left-over queue is what the batch
+   queued; the wake-up counter is what the callbacks' effects left plus one per functor queued
+   where queueInLoop's guard says so.  (Properties_C04.v, section "Cross-model links", shows that
+   this is a schedule of C04's micro-step transition system.) *)
+Theorem C09_iteration_queue_view :
+  forall S step h hq fb runs eff qw wfd tfd st e pending choice st' e' pend' act log ran,
+  loop_iter_full_env S step h hq fb runs eff qw wfd tfd st e pending choice
+    = Ok (st', e', pend', (act, log, ran)) ->
+  ran = pending ++ flat_map (fun ck => hq (fst ck) (snd ck)) log /\
+  pend' = functors_queued fb ran /\
+  k_wake e' = (k_wake (apply_effects eff log e)
+               + (if qw true false true
+                  then N.of_nat (length (flat_map (fun ck => hq (fst ck) (snd ck)) log)) else 0)
+               + (if qw true true true then N.of_nat (length pend') else 0))%N.
+Proof. exact c09_iteration_queue_view_spelled. Qed.
+Print Assumptions C09_iteration_queue_view.
